@@ -225,7 +225,19 @@ func setResponder(l *fedlab.Lab, h headerCase, class string) {
 
 // runHistory executes the history on the cached engine and each step alone on
 // the cache-less engine.
-func runHistory(ls *labs, hist []step, fault string, faultAt int) (string, []fail) {
+// noCallback: the cache is attached WITHOUT an error callback (nil is allowed).
+var noCallback bool
+
+func runHistory(ls *labs, hist []step, fault string, faultAt int) (out string, fails []fail) {
+	defer func() {
+		if r := recover(); r != nil {
+			fails = append(fails, fail{"cache failures never fail a request", "panic", fmt.Sprintf("history %+v fault %s@%d (error callback nil: %v): %v", hist, fault, faultAt, noCallback, r)})
+		}
+	}()
+	return runHistory0(ls, hist, fault, faultAt)
+}
+
+func runHistory0(ls *labs, hist []step, fault string, faultAt int) (string, []fail) {
 	menu := headerMenu()
 	cache := newCache()
 	var fails []fail
@@ -284,6 +296,9 @@ func runHistory(ls *labs, hist []step, fault string, faultAt int) (string, []fai
 		nsets := len(cache.sets)
 		hits0 := cache.hits
 		opt := engine.VerifWithResponseCache(cache, defaultTTL, func(err error) { cacheErrs = append(cacheErrs, err.Error()) })
+		if noCallback {
+			opt = engine.VerifWithResponseCache(cache, defaultTTL, nil)
+		}
 		qt, qv := splitOp(q)
 		got, reqs, err := ls.with.Exec(qt, "", qv, opt)
 		want, reqs0, err0 := ls.without.Exec(qt, "", qv)
@@ -429,6 +444,17 @@ func TestCheck(t *testing.T) {
 		}
 		run.Eval(1)
 		out, fails := runHistory(ls, hist, fault, faultAt)
+		if fault != "" {
+			// once more with the cache attached without an error callback
+			noCallback = true
+			_, f2 := runHistory(ls, hist, fault, faultAt)
+			noCallback = false
+			run.Count("faulted_histories_without_callback", 1)
+			for _, fl := range f2 {
+				fl.site += " (no error callback)"
+				fails = append(fails, fl)
+			}
+		}
 		var hs []string
 		for _, st := range hist {
 			hs = append(hs, fmt.Sprintf("%d/%s/%s", st.Op, menu[st.Header].name, st.Class))
